@@ -38,8 +38,50 @@ impl<'q> Prov<'q> {
     }
 }
 
+pub const HUGE_CASE: u64 = u64::MAX - 20;
+
+/// A valid cache with one method of tens of thousands of entries, queried on a thread
+/// with a 2 MiB stack (the default of a spawned Rust thread).
+fn huge_case(ctx: &Ctx, rep: &mut Reporter) {
+    ctx.note_case(HUGE_CASE);
+    let mut rng = Rng::new(ctx.case_seed(HUGE_CASE));
+    let n = 60_000 + rng.below(5_000);
+    let ast = pgvcore::ast::huge_group_ast(&mut rng, n);
+    let text = ast.print_lf();
+    let mut names = names_of(&ast);
+    names.classes.truncate(3);
+    let bytes = cur::write_cache(&text).expect("write to Vec");
+    let valid = AlignedBuf::from_bytes(&bytes);
+    rep.count("huge_group_inputs", 1);
+    let r = std::thread::scope(|s| {
+        std::thread::Builder::new()
+            .stack_size(2 * 1024 * 1024)
+            .spawn_scoped(s, || guarded(|| probe(&valid, &valid, &names, &[], rep, HUGE_CASE, "none (valid huge cache)")))
+            .expect("spawn")
+            .join()
+    });
+    match r {
+        Ok(Ok(())) => {}
+        Ok(Err(p)) => {
+            let mut d = Json::obj();
+            d.set("mapping", Json::s(format!("huge_group_ast(n={n})")));
+            panic_violation(rep, HUGE_CASE, "panic", &p, d);
+        }
+        Err(_) => {
+            eprintln!("HARNESS-ERROR: huge-case thread died");
+            std::process::exit(2);
+        }
+    }
+}
+
 pub fn run(ctx: &Ctx, rep: &mut Reporter) {
+    if !ctx.slow() && ctx.variant == "native" && ctx.shard < 4 && (ctx.only_case.is_none() || ctx.only_case == Some(HUGE_CASE)) {
+        huge_case(ctx, rep);
+    }
     for case_idx in ctx.case_range() {
+        if case_idx == HUGE_CASE {
+            continue;
+        }
         let mut rng = ctx_rng(ctx, case_idx);
         let ast = Gen::new(&mut rng, cfg_for(case_idx, ctx.slow())).ast();
         if !is_representable(&ast) {
